@@ -528,3 +528,6 @@ def run(ctx):
     from . import movefx_rules
     movefx_rules.rule_unmake_inverts_make(ctx)
     r7_side_and_number(ctx)
+    # what unmake restores must have been saved by every producer of moves (shared with C02.R7)
+    from . import c02
+    c02.r7_every_move_fully_recorded(ctx, "C03.R8")
